@@ -141,6 +141,9 @@ func genSchedSpec(p *schedParams, c *Corpus, run int, cold bool) *RunSpec {
 				d = i // own document; otherwise the same slice as somebody else
 			}
 			op := Op{Doc: d, Stack: genStack(ro), Ctx: ro.Chance(4, 5), Reader: ro.Chance(3, 4), Reuse: reuseW}
+			if !op.Ctx && ro.Split("ownctx").Chance(1, 2) {
+				op.CtxPlain = true // the caller's own plain context, read after the call
+			}
 			x := ro.Intn(100)
 			switch {
 			case c15 && x < 50:
@@ -165,7 +168,7 @@ func genSchedSpec(p *schedParams, c *Corpus, run int, cold bool) *RunSpec {
 				op.Kind = "ParseRender"
 			case x < 90:
 				op.Kind = "PkgConvert"
-			case x < 93:
+			case x < 91:
 				op.Kind = "ParseOnly"
 			case x < 96:
 				// another instance, of another configuration, built and used by this worker while
@@ -173,6 +176,10 @@ func genSchedSpec(p *schedParams, c *Corpus, run int, cold bool) *RunSpec {
 				ac := genConfig(ro.Split("aux"), "any")
 				if ro.Chance(1, 4) {
 					ac = spec.Cfg
+				} else if ro.Chance(1, 2) {
+					// the same extensions with other options: whatever the two instances share
+					// below the surface (package-level parser or renderer objects) gets both
+					ac = configVariant(ro.Split("aux-variant"), spec.Cfg, false)
 				}
 				op.Kind, op.Aux, op.Reader = "AuxConvert", &ac, false
 			default:
